@@ -146,7 +146,21 @@ class ExecS(Exec):
 
     # ------------------------------------------------------------------ blocks
     def ex_block(self, stmts, st):
-        """Returns a list of Outcome; at most one of kind 'normal' (merged)."""
+        """Returns a list of Outcome; at most one of kind 'normal' (merged) - unless the contract asks for path
+        splitting (`split_paths`): then the branches of an if are not merged and every path continues on its own
+        (more, but simpler obligations)."""
+        if getattr(self.cx.c, "split_paths", False) and self.cx.depth == 0:
+            lives, out = [st], []
+            for s in stmts:
+                nxt = []
+                for lv in lives:
+                    res = self.ex_stmt(s, lv)
+                    nxt += [o.st for o in res if o.kind == "normal"]
+                    out += [o for o in res if o.kind != "normal"]
+                lives = nxt
+                if not lives:
+                    break
+            return out + [Outcome("normal", lv) for lv in lives]
         base = st.mark()
         live = st
         out = []
@@ -399,6 +413,8 @@ class ExecS(Exec):
         r2 = self.branch_or_dead(s.orelse, bb)
         normals = [o.st for o in r1 + r2 if o.kind == "normal"]
         outs += [o for o in r1 + r2 if o.kind != "normal"]
+        if normals and getattr(self.cx.c, "split_paths", False) and self.cx.depth == 0:
+            return outs + [Outcome("normal", n_) for n_ in normals]
         if normals:
             outs.append(Outcome("normal", self.merge_states(base, normals)))
         return outs
@@ -459,6 +475,11 @@ class ExecS(Exec):
                 st.env.pop(t.id, None)
             elif isinstance(t, ast.Subscript):
                 base = self.ev(t.value, st)
+                if isinstance(base, ObjV) and self.world.method_handler(base.cls, "__delitem__") is not None:
+                    nb = self.world.method_handler(base.cls, "__delitem__")(self, st, base, self.ev(t.slice, st), s)
+                    outs += self.split_pending(st, s)
+                    self.assign(t.value, nb, st, s)
+                    continue
                 if not isinstance(base, DictIntV):
                     raise Unsupported("del of an item of a non-dict")
                 k_ = zint(self.ev(t.slice, st))
